@@ -48,6 +48,31 @@ def run(ctx):
         for ti, p in enumerate(tus):
             js.append(Job("lookups%03d_%s" % (ti, name), p, flags, [], [], timeout=1500, runner=runner, distinct=(name == "O0_assert_san"), key_prefix="lookups%03d_%s" % (ti, name)))
     total = core.build_and_run(ctx, js)
+    # (3) binary IO between field types: dump + load of every array-backed catalogue stack up to depth 3 (all configuration variants
+    #     incl. the several-KiB payload) and every writer -> reader pair that differs in interpolator / float width, in both
+    #     sanitizer builds
+    from vplib import iogen
+    from checks import c06
+    io_stacks = [s for s in iogen.catalogue(ctx.tier) if any(L.kind == "array" for L in s.layers) and s.depth() <= 3]
+    io_stacks, _ = g.filter_by_real_view_size(ctx, io_stacks, iogen.HDR_IO)
+    io_digests = {}
+    io_cases = 0
+    for name, flags, runner in BUILDS:
+        if runner is not None:
+            continue
+        exe, bad = iogen.build_binary(ctx, io_stacks, c06.MAIN, flags, "io_" + name)
+        if exe is None:
+            for pth, log in bad:
+                ctx.violation("compile:io_" + name, "an IO harness unit does not compile against the tree: " + core.first_diag(log), {"compile_log": log[-3000:], "file": str(pth)})
+            continue
+        for mode in ("roundtrip", "pairs"):
+            st = c06.run_mode(ctx, exe, [mode, "quick"], "io_%s_%s" % (mode, name))
+            io_cases += int(st.get("evaluations", 0))
+            for gname, gv in st.get("groups", {}).items():
+                io_digests.setdefault((mode, gname), {})[name] = gv.get("digest")
+    for (mode, gname), ds in io_digests.items():
+        if len(set(ds.values())) > 1:
+            ctx.violation("digest:io_" + mode, "build configurations disagree on the results of the same IO programs: %s" % ds, {"digests": ds})
     # digests must agree across the builds of one program set
     groups = {}
     for j in js:
@@ -63,7 +88,9 @@ def run(ctx):
         "BFS to fixpoint plus every history up to a length without merging) with every cell of every live field looked up after every operation, and (2) lookups at every in-domain alphabet coordinate of every stack of the pairwise layer-adjacency cover "
         "(every layer present, N,M up to 4); each program set is built and run in the configurations %s; oracle: no AddressSanitizer / UndefinedBehaviorSanitizer (incl. float-cast-overflow, missing return) / memcheck report, no assertion, "
         "and identical 64-bit digests of all observed values across the configurations; distinct_nontrivial counts the cases of one configuration" % [b[0] for b in BUILDS],
-        {"lookup_stacks": len(stacks), "builds": [b[0] for b in BUILDS]})
+        {"lookup_stacks": len(stacks), "builds": [b[0] for b in BUILDS], "io_stacks": len(io_stacks), "io_cases_both_sanitizer_builds": io_cases,
+         "io_programs": "(3) dump + load of every array-backed catalogue stack up to depth 3 (five configuration variants incl. a several-KiB payload) and every writer -> reader pair of them that differs only in interpolator / float width, "
+                        "in the two sanitizer builds; same oracle (no sanitizer report, identical digests)"})
     ctx.assumptions += ["'randomly generated programs' is replaced by bounded-exhaustive enumeration of histories and of the stack cover", "malformed input streams are C08's subject, not this property's domain"]
 
 
